@@ -1009,3 +1009,9 @@ func SortedKeys[K interface {
 	sort.Slice(keys, func(i, j int) bool { return keys[i] < keys[j] })
 	return keys
 }
+
+// IsFuel reports whether a recovered panic value is the loop-budget sentinel.
+func IsFuel(r interface{}) bool {
+	_, ok := r.(fuelPanic)
+	return ok
+}
